@@ -1,0 +1,23 @@
+//go:build verif
+// +build verif
+
+package isaacstates
+
+import "github.com/spikeekips/mitum/base"
+
+// verifBoxVoteproof is called by Ballotbox.newVoteproof right before the
+// voteproof is handed to the voteproof channel, i.e. at the point where the
+// ballot box makes a new voteproof visible to States. The conformance harness
+// (/verif, multi-node binding of spec/ISAAC.tla) installs a function that
+// records the event. No behaviour is added; without the verif build tag the
+// call is empty.
+var verifBoxVoteproof = func(*Ballotbox, base.Voteproof) {}
+
+// VerifSetBoxVoteproofHook installs (or, with nil, removes) the hook.
+func VerifSetBoxVoteproofHook(f func(*Ballotbox, base.Voteproof)) {
+	if f == nil {
+		f = func(*Ballotbox, base.Voteproof) {}
+	}
+
+	verifBoxVoteproof = f
+}
